@@ -41,6 +41,8 @@ def run(ctx):
     appenders = find_appenders(ctx)
     d2_data_owners(ctx, committer, appenders)         # D3 owners
     d3_commit_follows(ctx, committer, appenders)
+    from .C17 import truncate_commit_matches_resize
+    truncate_commit_matches_resize(ctx, 'D3', committer)
     # a failed append leaves file length == descriptor length: recovery handler (shared with C09)
     from .C09 import recover
     c = ctx.repo.cls('Array')
